@@ -32,6 +32,9 @@ def kind_of(dtype):
     raise ModelGap(f"dtype {dtype}")
 
 
+STR_MAXLEN = 4  # bound of the UTF-8 length encoding (len_bytes)
+
+
 class MODE:
     sym = False
 
@@ -448,6 +451,22 @@ class _StrNS:
 
     def ends_with(self, p):
         return self._res(lambda c: BOOL([z3.SuffixOf(lift_str(p), v) for v in c.vals], c.nulls))
+
+    def len_bytes(self):
+        """UTF-8 byte count, exact for strings of at most STR_MAXLEN characters (the bound is added to the input assumptions)"""
+        def g(c):
+            from symx import eng
+
+            out = []
+            for v in c.vals:
+                eng().assume(z3.Length(v) <= STR_MAXLEN)
+                tot = z3.IntVal(0)
+                for k in range(STR_MAXLEN):
+                    code = z3.StrToCode(z3.SubString(v, k, 1))
+                    tot = tot + z3.If(z3.IntVal(k) < z3.Length(v), z3.If(code < 128, 1, z3.If(code < 2048, 2, z3.If(code < 65536, 3, 4))), 0)
+                out.append(tot)
+            return out
+        return self._res(lambda c: Col(g(c), c.nulls, real_pl.UInt32))
 
     def len_chars(self):
         return self._res(lambda c: Col([z3.Length(v) for v in c.vals], c.nulls, real_pl.UInt32))
